@@ -43,7 +43,7 @@ ASSUMPTIONS = [
 REQUIRED = {"all": ["runs", "completed_runs", "steps", "accepted_steps", "rejected_in_range_steps", "out_of_range_proposals",
                     "flat_checks", "flat_checks_flat", "flat_checks_not_flat", "files_checked", "seqlog_lines_checked",
                     "partial_range_runs", "hostile_tapes", "start_outside_range_runs", "flat_boundary_exact_hits",
-                    "second_runs_on_same_machine", "g_beyond_709_steps"]}
+                    "second_runs_on_same_machine", "g_beyond_709_steps", "streaks_of_200_failed_checks"]}
 NRUNS = {"quick": 160, "thorough": 1200}
 STEP_BUDGET = {"quick": 3000, "thorough": 30000}
 WATCHDOG = {"quick": 1200, "thorough": 6 * 3600}
@@ -110,6 +110,11 @@ def cases(tier, seed):
             # a long first iteration with few bins: ln-DOS entries grow past ln(DBL_MAX) ~ 709.8 while ln f is still 1
             yield {"s": seq, "M": 2, "a": 0, "b": 2, "flatchk": 2600, "flatcrit": rng.choice([0.0, 0.2]), "conv": "e0.6",
                    "frozen": [], "hostile": False, "o": rng.randrange(1 << 30), "twice": False}
+            continue
+        if i % 16 == 11:
+            # strict criterion checked every step or two: hundreds of consecutive failing checks within one iteration
+            yield {"s": seq, "M": rng.choice([4, 5]), "a": 0, "b": 0, "flatchk": rng.choice([1, 2]), "flatcrit": 0.9, "conv": "e0.6",
+                   "frozen": [], "hostile": False, "o": rng.randrange(1 << 30), "twice": False, "fullrange": True}
             continue
         yield {"s": seq, "M": Mb, "a": a, "b": b, "twice": i % 6 == 2,
                "flatchk": rng.choice([1, 7, 50, 200] if easy else [7, 50, 200, 1000]),
@@ -352,6 +357,7 @@ class Monitor:
             self.bad("flatcheck_state", "flat check returned step counter %r" % (nstep2,))
         if flat:
             self.rep.cnt("flat_checks_flat")
+            self.fail_streak = 0
             if not M.close(f2, math.sqrt(self.f), rel=1e-12):
                 self.bad("f_update", "flat: f went from %r to %r, expected the square root %r" % (self.f, f2, math.sqrt(self.f)))
             if any(x != 0 for x in H2) or len(H2) != self.M:
@@ -365,6 +371,9 @@ class Monitor:
                 self.finished_f = True
         else:
             self.rep.cnt("flat_checks_not_flat")
+            self.fail_streak = getattr(self, "fail_streak", 0) + 1
+            if self.fail_streak == 200:
+                self.rep.cnt("streaks_of_200_failed_checks")
             if not M.close(f2, self.f, rel=1e-12) or [int(x) for x in H2] != self.H or int(niter2) != self.niter:
                 self.bad("not_flat_changed_state", "not flat, yet f/H/niter became %r / %r / %r" % (f2, list(H2), niter2))
 
@@ -447,6 +456,8 @@ def check_files(rep, mon, case, outdir, result, S):
 
 
 def judge(case, rep, S):
+    if case.get("fullrange"):
+        case = dict(case, b=case["M"])
     if _cfg.get("hook_missing"):
         rep.inconclusive("the guarded hook is not active (LOCALCIDER_VERIF != 1 or hook commit missing)")
         return
